@@ -12,6 +12,7 @@ META = {
         "R2 the escape table of the printer (escape_text) is the inverse of the tokenizer's (unescape/is_escape), everything needs_escape tests for is "
         "escaped, and \\uXXXX is written and read with the same digit order; R3 the incremental decoders only ever advance the input by the length the "
         "parser consumed and read_utf8 keeps an incomplete trailing character for the next chunk; R5 panic audit of the parser, decoder and literal modules. R7 (shared with C16.R5) typed readers convert every kind of number the tokenizer may deliver."
+        " R1d a printer that a body was delegated to opens no second enclosure (F64); R11 nom's finish() is applied only where the parser cannot have answered Incomplete (F63); R12 / R13 (= C10.R17 / R18) the length-delimited and the incremental decoder book what was consumed and start afresh after every finished result."
 ),
     "does_not_decide": "print/parse round trip and fixed point over all values; equality of incremental and one-shot parsing for all chunkings; termination",
 }
